@@ -50,19 +50,32 @@ func c14Pts(g orb.Geometry, out []orb.Point) []orb.Point {
 	return out
 }
 
-// c14Fractions ships maptile.Fraction of every vertex (the transcendental part stays in Go).
+// c14Fractions ships maptile.Fraction of every vertex (the transcendental part stays in Go), followed by
+// the segment "M n (sa sv la lv)*n": per vertex, Go's own libm values on the path of maptile.Fraction —
+// sa = lat*Pi/180, sv = math.Sin(sa), la = (1+sv)/(1-sv), lv = math.Log(la) — computed by this mirror of
+// its two expressions (only the ARGUMENTS are the mirror's; the values are Go's).  The Lean driver
+// redoes Fraction with the model Orb.TileGeo.fraction (C13's) on top of them and must reproduce the
+// shipped fraction — the IMPLEMENTATION's — bit for bit; an argument that is not the one the model
+// computes is reported as a diff (oracle-miss).  nil members of collections have no vertices.
 func c14Fractions(g orb.Geometry, z maptile.Zoom) string {
 	ps := c14Pts(g, nil)
-	var sb strings.Builder
+	var sb, lm strings.Builder
 	sb.WriteString(strconv.Itoa(len(ps)))
+	lm.WriteString(" ; M ")
+	lm.WriteString(strconv.Itoa(len(ps)))
 	for _, p := range ps {
 		f := maptile.Fraction(p, z)
 		sb.WriteString(" ")
 		sb.WriteString(fb(f[0]))
 		sb.WriteString(" ")
 		sb.WriteString(fb(f[1]))
+		sa := p[1] * math.Pi / 180.0
+		sv := math.Sin(sa)
+		la := (1.0 + sv) / (1.0 - sv)
+		lv := math.Log(la)
+		lm.WriteString(" " + fb(sa) + " " + fb(sv) + " " + fb(la) + " " + fb(lv))
 	}
-	return sb.String()
+	return sb.String() + lm.String()
 }
 
 func c14Set(s maptile.Set, z maptile.Zoom) string {
@@ -771,6 +784,11 @@ func (g *c14Gen) geom(depth int) orb.Geometry {
 		n := size(g.r, 4)
 		c := make(orb.Collection, n)
 		for i := range c {
+			// a nil-INTERFACE member (orb.Collection{nil, ls}): tilecover.Geometry(nil) is (nil, nil), so it
+			// contributes the empty cover; one member in eight, at every nesting depth
+			if g.r.Intn(8) == 0 {
+				continue
+			}
 			c[i] = g.geom(depth + 1)
 		}
 		return c
@@ -1061,7 +1079,11 @@ func genC14(c *Ctx) {
 	// maptile.Fraction (|lat| > 85.0511) through tilecover.Point / MultiPoint / Bound
 	for z := 0; z <= 22; z++ {
 		pts := []orb.Point{{180, 0}, {180, 45.5}, {180, -85.0511}, {-180, 0}, {math.Nextafter(180, 0), 10},
-			{0, 90}, {0, -90}, {12.5, 85.06}, {-12.5, -85.06}, {180, 90}, {180, -90}, {-180, 90}, {-180, -90}}
+			{0, 90}, {0, -90}, {12.5, 85.06}, {-12.5, -85.06}, {180, 90}, {180, -90}, {-180, 90}, {-180, -90},
+			// latitudes beyond the poles (a clamp decided on sin(lat) folds back there) and the infinities: the
+			// shipped fraction is compared with C13's model of Fraction, the row with the clamp row
+			{12.5, math.Nextafter(90, 100)}, {12.5, 100}, {-12.5, -100}, {0, 180}, {0, -180}, {33, 269}, {33, -271}, {-33, 1e6},
+			{5, math.Inf(1)}, {5, math.Inf(-1)}}
 		var gl []orb.Geometry
 		for _, p := range pts {
 			gl = append(gl, p)
@@ -1162,6 +1184,30 @@ func genC14(c *Ctx) {
 				continue
 			}
 			c.Case("cover", fmt.Sprintf("%d %s", z, gs(geo)))
+		}
+	}
+
+	// fixed family: collections with nil-INTERFACE members — alone, first / middle / last among members of
+	// every kind, repeated, nested one and two levels down, next to typed-nil members — at a few zooms
+	for _, z := range []int{0, 3, 9, 22} {
+		n := float64(uint64(1) << uint(z))
+		w := 360.0 / n
+		ls := orb.LineString{{10, 10}, {10 + 1.7*w, 10 + 0.4*w}, {10 + 2.2*w, 10 - 0.9*w}}
+		ring := orb.Ring{{-20, -5}, {-20 + 2.5*w, -5}, {-20 + 2.5*w, -5 + 1.5*w}, {-20, -5 + 1.5*w}, {-20, -5}}
+		pg := orb.Polygon{ring}
+		pt := orb.Point{33.3, -44.4}
+		bd := orb.Bound{Min: orb.Point{50, 20}, Max: orb.Point{50 + 1.2*w, 20 + 0.7*w}}
+		mpt := orb.MultiPoint{pt, {-100, 60}}
+		for _, col := range []orb.Collection{
+			{nil}, {nil, nil}, {nil, ls}, {ls, nil}, {nil, pg}, {pg, nil, ls}, {nil, pt}, {pt, nil}, {nil, bd}, {mpt, nil, ring},
+			{orb.Collection{nil}}, {ls, orb.Collection{nil}}, {orb.Collection{nil, ls}, nil, orb.Collection{pg, orb.Collection{nil, pt, nil}}},
+			{orb.LineString(nil), nil, orb.Collection(nil), ls}, {nil, orb.MultiLineString{ls}, nil, orb.MultiPolygon{pg}, nil},
+		} {
+			i++
+			if !c.Mine(i) {
+				continue
+			}
+			c.Case("coll", fmt.Sprintf("%d %s", z, gs(col)))
 		}
 	}
 
